@@ -29,7 +29,7 @@
 //!   combinator calls that build the AST for `e`;
 //!   when hitting `Escape(inner)`, switch back to `translate_stage0(inner)`.
 
-use crate::ast::{Expr, Literal, MatchArm, MatchPattern, RecordField};
+use crate::ast::{Expr, Literal, MatchArm, RecordField};
 use crate::compiler::intrinsics;
 use crate::interner::{ExprNodeId, Symbol, ToSymbol, TypeNodeId};
 use crate::pattern::{Pattern, TypedId, TypedPattern};
@@ -611,7 +611,7 @@ fn translate_code(expr: ExprNodeId) -> ExprNodeId {
         },
 
         // -- Match ----------------------------------------------------------
-        Expr::Match(scrutinee, arms) => translate_code_match(scrutinee, arms),
+        Expr::Match(scrutinee, arms) => translate_code_match(expr, scrutinee, arms),
 
         // -- Paren ----------------------------------------------------------
         // Paren should already be stripped, but handle it gracefully.
@@ -660,87 +660,26 @@ fn translate_code(expr: ExprNodeId) -> ExprNodeId {
 // Match expression translation
 // ---------------------------------------------------------------------------
 
-/// Translate a match expression inside a bracket into combinator calls.
+/// Translate a match expression inside a bracket into a `code_match` call.
 ///
-/// Since match patterns are structural data rather than expressions, we
-/// construct the entire `Expr::Match` node by translating the scrutinee and
-/// each arm body, while preserving patterns verbatim.
-fn translate_code_match(scrutinee: ExprNodeId, arms: Vec<MatchArm>) -> ExprNodeId {
-    // Strategy: build the match AST node using a dedicated combinator that
-    // receives the translated scrutinee code, pattern data, and translated
-    // arm bodies.
-    //
-    // For now, we build the Expr::Match node directly via the individual
-    // translated parts.  The scrutinee and arm bodies are code values
-    // (ExprNodeId); the patterns are preserved as-is.
-    //
-    // We embed this as stage-0 code that calls a helper to assemble the
-    // match node.  Since we don't have a dedicated code_match combinator
-    // yet, we construct the node inline using the AST interner.
-
+/// The scrutinee and the arm bodies are expressions and are translated like
+/// any other code.  The patterns are data, not expressions: they are handed
+/// over the way types are (see [`type_id_to_int_literal`]), as the interner id
+/// of the match node they belong to, from which `code_match` reads them back.
+///
+/// `code_match(scrutinee: Code, template: int, bodies: [Code]) -> Code`
+fn translate_code_match(
+    match_expr: ExprNodeId,
+    scrutinee: ExprNodeId,
+    arms: Vec<MatchArm>,
+) -> ExprNodeId {
     let translated_scrutinee = translate_code(scrutinee);
     let translated_arm_bodies: Vec<ExprNodeId> =
         arms.iter().map(|arm| translate_code(arm.body)).collect();
-
-    // Build pattern literals as match pattern data.
-    // We need to pass patterns through to the generated code.  Since patterns
-    // are not expressions, we serialize them as data that the match-building
-    // code can reconstruct.
-
-    // For now, build a code_match combinator call that takes:
-    //   arg0: translated scrutinee (code value)
-    //   arg1: array of translated arm bodies (code values)
-    //   arg2: array of pattern descriptors (as integers/strings)
-    //
-    // Since a proper code_match combinator is complex, we use a simpler
-    // approach: encode each arm as a pair of (pattern_tag, body_code).
-
-    // Encode pattern as an integer tag + optional sub-data.
-    let pattern_tags: Vec<ExprNodeId> = arms
-        .iter()
-        .map(|arm| encode_match_pattern(&arm.pattern))
-        .collect();
-
-    let scrutinee_arg = translated_scrutinee;
+    let template =
+        Expr::Literal(Literal::Int(match_expr.0.data().as_ffi() as i64)).into_id_without_span();
     let bodies_arr = Expr::ArrayLiteral(translated_arm_bodies).into_id_without_span();
-    let patterns_arr = Expr::ArrayLiteral(pattern_tags).into_id_without_span();
-
-    make_apply("code_match", vec![scrutinee_arg, patterns_arr, bodies_arr])
-}
-
-/// Encode a `MatchPattern` as a literal expression for passing to the
-/// code_match combinator.
-///
-/// Encoding scheme (may be extended):
-/// - Wildcard: Int(0)
-/// - Variable(name): String(name) — the combinator binds the variable
-/// - Literal(lit): the literal expression itself
-/// - Constructor(name, None): Tuple([Int(1), String(name)])
-/// - Constructor(name, Some(inner)): Tuple([Int(1), String(name), encode(inner)])
-/// - Tuple(pats): Tuple([Int(2), ...encoded sub-patterns])
-fn encode_match_pattern(pat: &MatchPattern) -> ExprNodeId {
-    match pat {
-        MatchPattern::Wildcard => Expr::Literal(Literal::Int(0)).into_id_without_span(),
-        MatchPattern::Variable(name) => {
-            Expr::Literal(Literal::String(*name)).into_id_without_span()
-        }
-        MatchPattern::Literal(lit) => Expr::Literal(lit.clone()).into_id_without_span(),
-        MatchPattern::Constructor(name, inner) => {
-            let tag = Expr::Literal(Literal::Int(1)).into_id_without_span();
-            let name_lit = Expr::Literal(Literal::String(*name)).into_id_without_span();
-            let mut elems = vec![tag, name_lit];
-            if let Some(inner_pat) = inner {
-                elems.push(encode_match_pattern(inner_pat));
-            }
-            Expr::Tuple(elems).into_id_without_span()
-        }
-        MatchPattern::Tuple(pats) => {
-            let tag = Expr::Literal(Literal::Int(2)).into_id_without_span();
-            let mut elems = vec![tag];
-            elems.extend(pats.iter().map(encode_match_pattern));
-            Expr::Tuple(elems).into_id_without_span()
-        }
-    }
+    make_apply("code_match", vec![translated_scrutinee, template, bodies_arr])
 }
 
 // ---------------------------------------------------------------------------
